@@ -87,6 +87,10 @@ type Node struct {
 	// its own (a source with the task's first input, one process) with Nest slots
 	// before it writes its outputs - a second Workflow object alive in the program
 	Nest    int
+	// HiddenParams (Go-function task): the parameter ports are not mentioned in
+	// the command pattern or the output paths (created with InParam only); the
+	// function reads the values with task.Param - an empty string is then a value
+	HiddenParams bool
 	Head    int  // > 0: the command reads only the first Head bytes of each input and closes it (head -c)
 	TouchIn bool // the command re-writes its first input in place (same bytes, later mtime)
 	BgTail  bool // the command returns while a child of it still writes the rest of the first output
@@ -203,6 +207,9 @@ func (w *WF) Describe() string {
 		}
 		if n.Custom != 0 {
 			fmt.Fprintf(&b, " gofunc=%d", n.Custom)
+		}
+		if n.HiddenParams {
+			b.WriteString(" params-only-read-by-the-function")
 		}
 		if n.Nest > 0 {
 			fmt.Fprintf(&b, " runs-a-nested-workflow(slots=%d)", n.Nest)
